@@ -20,6 +20,18 @@ EXPLANATION = (
 TECHNIQUE = 'path counting on the CFG, shape check, linear effect summaries with a symbolic child count (coefficient comparison, no solver)'
 
 
+def roles_of(node, names):
+    """source text of `node` with the locals renamed to the role they play (keys of findings must not depend on local names)"""
+    import copy
+    if node is None:
+        return 'None'
+    t = copy.deepcopy(node)
+    for n in ast.walk(t):
+        if isinstance(n, ast.Name) and n.id in names and names[n.id]:
+            n.id = names[n.id]
+    return norm(t)
+
+
 def run(ctx):
     P = ctx.prog
     RP = P.cls('RemotePickler36')
@@ -65,6 +77,22 @@ def run(ctx):
             if isinstance(v, ast.IfExp) and 'isinstance(obj, dict)' in norm(v.test):
                 DV = st.targets[0].id
     check_provenance(ctx, rr, SV, LV, DV)
+    # locals of remote_reduce by role (not by name)
+    OBJ = rr.params[1] if len(rr.params) > 1 else 'obj'
+    NO = NA = CH = AV = KV = None
+    for st in walk_local(rr.node):
+        if isinstance(st, ast.Assign) and isinstance(st.targets[0], ast.Name) and (dotted(st.value) or '').startswith('copyreg.__newobj'):
+            NO = st.targets[0].id
+        if isinstance(st, ast.Assign) and isinstance(st.targets[0], ast.Name) and isinstance(st.value, ast.Tuple) and st.value.elts and norm(st.value.elts[0]) == f'type({OBJ})':
+            NA = st.targets[0].id
+        if isinstance(st, ast.Assign) and isinstance(st.targets[0], ast.Tuple) and len(st.targets[0].elts) == 2 and isinstance(st.value, ast.Call) and last_attr(st.value) == '__getnewargs_ex__' \
+                and all(isinstance(x, ast.Name) for x in st.targets[0].elts):
+            AV, KV = [x.id for x in st.targets[0].elts]
+        if isinstance(st, ast.For):
+            for c in calls_in(st):
+                if last_attr(c) == 'append' and isinstance(c.func.value, ast.Name) and any(last_attr(x) == 'subject_to_custom_reduce' for x in calls_in(st)):
+                    CH = c.func.value.id
+    ctx.require(None not in (NO, NA, AV, KV), 'remote_reduce: the locals playing newobj / newargs / args / kwargs were not found')
     if ok:
         e = ret_stmts[0].value.elts
         names = [norm(x) for x in e]
@@ -80,18 +108,18 @@ def run(ctx):
         ctx.check('R2', 'the reduce callable is RemoteState.recreate_obj_and_patch_setstate', helper is not None and norm(helper).endswith('recreate_obj_and_patch_setstate'),
                   'RemotePickler36.remote_reduce', f'reduce-callable:{norm(helper)}', 'opt-in objects are not re-created through the patching helper', where=loc(rr, ret_stmts[0]))
         wrap = defs.get(names[1], [None])[-1] if isinstance(e[1], ast.Name) else e[1]
-        okw = isinstance(wrap, ast.Tuple) and len(wrap.elts) == 3 and [norm(x) for x in wrap.elts] == ['newobj', 'newargs', 'children_names']
-        ctx.check('R2', 'the helper receives (newobj, newargs, children_names)', okw, 'RemotePickler36.remote_reduce', f'helper-args:{norm(wrap)}',
+        okw = isinstance(wrap, ast.Tuple) and len(wrap.elts) == 3 and [norm(x) for x in wrap.elts] == [NO, NA, CH] and None not in (NO, NA, CH)
+        ctx.check('R2', 'the helper receives (newobj, newargs, children_names)', okw, 'RemotePickler36.remote_reduce', 'helper-args:' + roles_of(wrap, {NO: 'newobj', NA: 'newargs', CH: 'children_names'}),
                   'the re-creation helper is not given (newobj, newargs, children_names)', where=loc(rr, ret_stmts[0]))
     # newobj / newargs definitions
     pairs = []
     for st in walk_local(rr.node):
         if isinstance(st, ast.If):
             for branch in (st.body, st.orelse):
-                no = [x for x in branch if isinstance(x, ast.Assign) and is_name(x.targets[0], 'newobj')]
-                na = [x for x in branch if isinstance(x, ast.Assign) and is_name(x.targets[0], 'newargs')]
+                no = [x for x in branch if isinstance(x, ast.Assign) and is_name(x.targets[0], NO)]
+                na = [x for x in branch if isinstance(x, ast.Assign) and is_name(x.targets[0], NA)]
                 if no and na:
-                    pairs.append((norm(no[0].value), norm(na[0].value)))
+                    pairs.append((norm(no[0].value), roles_of(na[0].value, {OBJ: 'obj', AV: 'args', KV: 'kwargs'})))
     want = {('copyreg.__newobj__', '(type(obj), *args)'), ('copyreg.__newobj_ex__', '(type(obj), args, kwargs)')}
     ctx.check('R2', 'newobj/newargs follow object.__reduce_ex__ (protocol 2+)', set(pairs) == want, 'RemotePickler36.remote_reduce', 'newobj-shapes:' + ';'.join(f'{a}{b}' for a, b in sorted(pairs)),
               f'the object is re-created with {sorted(pairs)} instead of copyreg.__newobj__(type(obj), *args) / copyreg.__newobj_ex__(type(obj), args, kwargs)', where=loc(rr, rr.node))
@@ -107,7 +135,7 @@ def run(ctx):
               'break_patches(children_names) is not called exactly once per re-created object', where=loc(rec, rec.node))
     # children_names: keys of dict state whose value is opt-in
     ch = [st for st in walk_local(rr.node) if isinstance(st, ast.For) and f'{SV}.items()' in norm(st.iter)]
-    ok = bool(ch) and any(last_attr(c) == 'append' and receiver(c) == 'children_names' for c in calls_in(ch[0])) and any(last_attr(c) == 'subject_to_custom_reduce' for c in calls_in(ch[0]))
+    ok = bool(ch) and any(last_attr(c) == 'append' and receiver(c) == CH for c in calls_in(ch[0])) and any(last_attr(c) == 'subject_to_custom_reduce' for c in calls_in(ch[0]))
     ctx.check('R2', 'children_names are the state keys holding opt-in objects', ok, 'RemotePickler36.remote_reduce', 'children-scan', 'opt-in children are not recorded by name', where=loc(rr, rr.node))
 
     # ---------------------------------------------------------------- R3 optional hooks guarded
